@@ -266,6 +266,13 @@ def r5_effects(ctx):
         CID = "CoinID::new(Transaction::hash_nosigs(%s), (elem(%s) as u8))" % (EL, RNG)
     for bi, e in ins:
         o, i = enclosing(bi, OUTSRC)
+        if o is not None and i is None:
+            chain = [l for l in loops if bi in l[1] and l[0] != o[0] and q.contains(l[3], lambda x: x[0] == "closure")]
+            if chain:
+                # the insert sits in a loop over an adapter chain built from closures (`(0..n).map(..).filter_map(..)`): which indices it visits
+                # and what the id / data of each element are is inside those closures — not read here
+                r.undecided("outputs/in-loops", "the outputs are inserted in a loop over %s: indices, id and data of each element are not decided" % sig(chain[0][3])[:160], b.where(bi))
+                continue
         r.check(o is not None and i is not None, "outputs/in-loops", "inside (all transactions) × (all output indices)", "the insert is not inside the loops over all transactions and all of their outputs", b.where(bi))
         r.check(sig(e[2][1]) == CID, "outputs/id", "id = CoinID::new(txhash, i)", "id = %s" % sig(e[2][1]), b.where(bi))
         r.check(sig(e[2][2]) == "try(HashMap::get($3, %s))" % CID, "outputs/data", "data = relevant_coins[id]", "data = %s" % sig(e[2][2])[:160], b.where(bi))
